@@ -627,6 +627,140 @@ fn sem_program(r: &SemRecv, pos: &(&str, &str, &str), f: &Form) -> Option<String
     Some(s)
 }
 
+
+// ------------------------------------------------------------------ overlapping inherent impls
+//
+// `impl[T] Cell[T] { fn m }` next to `impl Cell[int32] { fn m }` (different observable bodies).  The
+// typer accepts the overlap: for a receiver of exactly the instantiated type the instantiation's
+// impl is the method, the generic impl is the fallback.  Both call forms — `x.m()` and
+// `Cell::m(x)` — must run the same one.
+
+const OVERLAP_LIB: &str = r#"struct Cell[T] { v: T }
+enum Opt[T] { Som(T), Non }
+struct Pr[A, B] { a: A, b: B }
+impl[T] Cell[T] {
+  fn describe(self: Cell[T]) -> string { let _ = string_println("generic describe"); "generic" }
+  fn poke(self: Cell[T]) -> unit { string_println("generic poke") }
+  fn get(self: Cell[T]) -> T { self.v }
+  fn arg(self: Cell[T], k: int32) -> int32 { k }
+}
+impl Cell[int32] {
+  fn describe(self: Cell[int32]) -> string { let _ = string_println("exact-int describe"); "exact " + int32_to_string(self.v) }
+  fn poke(self: Cell[int32]) -> unit { string_println("exact-int poke " + int32_to_string(self.v)) }
+  fn only(self: Cell[int32]) -> int32 { self.v + 100 }
+  fn arg(self: Cell[int32], k: int32) -> int32 { self.v * 10 + k }
+}
+impl Cell[string] { fn describe(self: Cell[string]) -> string { "exact-str " + self.v } }
+impl Cell[Cell[int32]] {
+  fn describe(self: Cell[Cell[int32]]) -> string { let inner: Cell[int32] = self.v; "nested(" + inner.describe() + ")" }
+  fn poke(self: Cell[Cell[int32]]) -> unit { let inner: Cell[int32] = self.v; let _ = string_println("nested poke"); Cell::poke(inner) }
+}
+impl[T] Opt[T] { fn kind(self: Opt[T]) -> string { match self { Opt::Som(_) => "som", Opt::Non => "non", } } }
+impl Opt[bool] { fn kind(self: Opt[bool]) -> string { match self { Opt::Som(b) => "som-" + bool_to_string(b), Opt::Non => "non-bool", } } }
+impl[A, B] Pr[A, B] { fn label(self: Pr[A, B]) -> string { "pair" } }
+impl Pr[int32, string] { fn label(self: Pr[int32, string]) -> string { "int-str " + int32_to_string(self.a) + self.b } }
+fn mk[T](x: T) -> Cell[T] { Cell { v: x } }
+fn idf[T](x: T) -> T { x }
+fn first[A, B](p: Pr[A, B]) -> A { p.a }
+"#;
+
+/// (scenario, base type name, method, extra args, statements binding `x`, result kind)
+const OVERLAP_SCENARIOS: &[(&str, &str, &str, &str, &str, &str)] = &[
+    ("exact_int", "Cell", "describe", "", "let x: Cell[int32] = Cell { v: 1 };", "string"),
+    ("exact_int_unannotated", "Cell", "describe", "", "let x = Cell { v: 2 };", "string"),
+    ("exact_str", "Cell", "describe", "", "let x: Cell[string] = Cell { v: \"s\" };", "string"),
+    ("generic_only_bool", "Cell", "describe", "", "let x: Cell[bool] = Cell { v: true };", "string"),
+    ("nested_exact", "Cell", "describe", "", "let i: Cell[int32] = Cell { v: 3 }; let x: Cell[Cell[int32]] = Cell { v: i };", "string"),
+    ("nested_generic_only", "Cell", "describe", "", "let i: Cell[bool] = Cell { v: true }; let x: Cell[Cell[bool]] = Cell { v: i };", "string"),
+    ("doubly_nested", "Cell", "describe", "", "let i: Cell[int32] = Cell { v: 3 }; let j: Cell[Cell[int32]] = Cell { v: i }; let x: Cell[Cell[Cell[int32]]] = Cell { v: j };", "string"),
+    ("value_from_generic_fn", "Cell", "describe", "", "let x: Cell[int32] = mk(4);", "string"),
+    ("value_through_identity", "Cell", "describe", "", "let c: Cell[int32] = Cell { v: 5 }; let x: Cell[int32] = idf(c);", "string"),
+    ("value_from_generic_method", "Cell", "describe", "", "let i: Cell[int32] = Cell { v: 6 }; let w: Cell[Cell[int32]] = Cell { v: i }; let x: Cell[int32] = w.get();", "string"),
+    ("value_from_pair_projection", "Cell", "describe", "", "let c: Cell[int32] = Cell { v: 7 }; let p: Pr[Cell[int32], bool] = Pr { a: c, b: true }; let x: Cell[int32] = first(p);", "string"),
+    ("exact_only_method", "Cell", "only", "", "let x: Cell[int32] = Cell { v: 8 };", "int32"),
+    ("extra_argument_exact", "Cell", "arg", "7", "let x: Cell[int32] = Cell { v: 9 };", "int32"),
+    ("extra_argument_generic", "Cell", "arg", "7", "let x: Cell[string] = Cell { v: \"t\" };", "int32"),
+    ("effect_exact", "Cell", "poke", "", "let x: Cell[int32] = Cell { v: 1 };", "unit"),
+    ("effect_generic", "Cell", "poke", "", "let x: Cell[string] = Cell { v: \"u\" };", "unit"),
+    ("effect_nested", "Cell", "poke", "", "let i: Cell[int32] = Cell { v: 2 }; let x: Cell[Cell[int32]] = Cell { v: i };", "unit"),
+    ("enum_exact_bool", "Opt", "kind", "", "let x: Opt[bool] = Opt::Som(true);", "string"),
+    ("enum_exact_bool_non", "Opt", "kind", "", "let x: Opt[bool] = Opt::Non;", "string"),
+    ("enum_generic_int", "Opt", "kind", "", "let x: Opt[int32] = Opt::Som(1);", "string"),
+    ("two_params_exact", "Pr", "label", "", "let x: Pr[int32, string] = Pr { a: 1, b: \"z\" };", "string"),
+    ("two_params_swapped_generic", "Pr", "label", "", "let x: Pr[string, int32] = Pr { a: \"z\", b: 1 };", "string"),
+];
+
+/// where the call stands: (context id, template with @CALL@ = the call on `x`, @BIND@ = the binding of `x`, @RT@)
+const OVERLAP_CONTEXTS: &[(&str, &str)] = &[
+    // directly in main
+    ("concrete", "fn main() -> unit {\n  @BIND@\n  @USE@\n}\n"),
+    // in a non-generic function taking the receiver
+    ("concrete_fn", "fn callee(x: @XT@) -> @RT@ { @CALL@ }\nfn main() -> unit {\n  @BIND@\n  @USEFN@\n}\n"),
+    // inside a generic function whose type parameter is unrelated to the receiver: the receiver type is
+    // concrete there, so the instantiation's impl is the method
+    ("inside_generic_fn_concrete_receiver", "fn wrapper[U](u: U, x: @XT@) -> @RT@ { @CALL@ }\nfn main() -> unit {\n  @BIND@\n  @USEWRAP@\n}\n"),
+    // in a loop tail / branch (statement positions)
+    ("loop_tail", "fn main() -> unit {\n  @BIND@\n  let i = ref(0);\n  while ref_get(i) < 2 { ref_set(i, ref_get(i) + 1); @STMT@ };\n  ()\n}\n"),
+];
+
+fn overlap_programs(thorough: bool, seed: u64) -> Vec<(String, String)> {
+    let mut v = Vec::new();
+    for (si, (sc, base, m, extra, bind, rt)) in OVERLAP_SCENARIOS.iter().enumerate() {
+        // the type of x, read off the binding (`let x: T = …`); unannotated: only the `concrete` context
+        let xt = bind.rsplit("let x: ").next().and_then(|t| t.split(" = ").next()).filter(|_| bind.contains("let x: "));
+        for (ci, (ctx, tpl)) in OVERLAP_CONTEXTS.iter().enumerate() {
+            if xt.is_none() && *ctx != "concrete" && *ctx != "loop_tail" {
+                continue;
+            }
+            if !thorough && *ctx != "concrete" && (si + ci + seed as usize) % 2 == 1 {
+                continue;
+            }
+            for form in ["dot", "path"] {
+                let args_tail = if extra.is_empty() { String::new() } else { format!(", {}", extra) };
+                let call = if form == "dot" { format!("x.{}({})", m, extra) } else { format!("{}::{}(x{})", base, m, args_tail) };
+                let show = |e: &str| match *rt {
+                    "string" => format!("string_println({})", e),
+                    "int32" => format!("string_println(int32_to_string({}))", e),
+                    _ => format!("let u: unit = {}; string_println(\"done\")", e),
+                };
+                let stmt = match *rt {
+                    "unit" => call.clone(),
+                    _ => format!("let _ = {}; ()", call),
+                };
+                let src = format!(
+                    "{}{}",
+                    OVERLAP_LIB,
+                    tpl.replace("@BIND@", bind)
+                        .replace("@USE@", &show(&call))
+                        .replace("@USEFN@", &show("callee(x)"))
+                        .replace("@USEWRAP@", &show("wrapper(true, x)"))
+                        .replace("@STMT@", &stmt)
+                        .replace("@CALL@", &call)
+                        .replace("@XT@", xt.unwrap_or("unit"))
+                        .replace("@RT@", rt)
+                );
+                v.push((format!("sem/ovl_{}/{}/{}", sc, ctx, form), src));
+            }
+        }
+    }
+    // the receiver's type is a type parameter instance: inside `fn g[T](c: Cell[T])` both forms can only
+    // mean the generic impl, whatever T is instantiated with — they still have to agree with each other
+    for (inst, bind) in [("int32", "let x: Cell[int32] = Cell { v: 1 };"), ("bool", "let x: Cell[bool] = Cell { v: true };"), ("nested", "let i: Cell[int32] = Cell { v: 1 }; let x: Cell[Cell[int32]] = Cell { v: i };")] {
+        for (m, rt) in [("describe", "string"), ("poke", "unit")] {
+            for form in ["dot", "path"] {
+                let call = if form == "dot" { format!("c.{}()", m) } else { format!("Cell::{}(c)", m) };
+                let body = if rt == "unit" { format!("{}; \"done\"", call) } else { call };
+                let src = format!(
+                    "{}fn generic_ctx[T](c: Cell[T]) -> string {{ {} }}\nfn main() -> unit {{\n  {}\n  string_println(generic_ctx(x))\n}}\n",
+                    OVERLAP_LIB, body, bind
+                );
+                v.push((format!("sem/ovl_generic_receiver_{}_{}/in_generic_fn/{}", inst, m, form), src));
+            }
+        }
+    }
+    v
+}
+
 pub fn main_sem(args: &util::Args) {
     util::quiet_panics();
     let _ = std::fs::create_dir_all(&args.out);
@@ -662,8 +796,51 @@ pub fn main_sem(args: &util::Args) {
             }
         }
     }
+    // minimised witnesses of past C17 failures, with the output the source denotes written next to them
+    if let Ok(rd) = std::fs::read_dir(util::verif_root().join("corpus").join("C17")) {
+        let mut files: Vec<_> = rd.filter_map(|e| e.ok().map(|e| e.path())).filter(|p| p.extension().is_some_and(|x| x == "gom")).collect();
+        files.sort();
+        for f in files {
+            let Ok(src) = std::fs::read_to_string(&f) else { continue };
+            let id = format!("corpus:C17/{}", f.file_name().unwrap().to_string_lossy());
+            let expected = std::fs::read_to_string(format!("{}.out", f.display())).ok();
+            n += 1;
+            match util::compile_text(&dir, &src) {
+                Outcome::Ok(c) => {
+                    let _ = writeln!(out, "{}\tEXPECT\t{}\t{}", id, if expected.is_some() { "out" } else { "none" }, esc_line(expected.as_deref().unwrap_or("")));
+                    let _ = writeln!(out, "{}\tSRC\t{}", id, esc_line(&src));
+                    let _ = writeln!(out, "{}\tSTAGE\tgo\t{}", id, crate::godump::gfile(&c.go).to_text());
+                }
+                Outcome::Err(stage, msgs) => {
+                    let _ = writeln!(out, "{}\tREJECT\t{}\t{}\t{}", id, stage, esc_line(&msgs.join(" | ")), esc_line(&src));
+                }
+                Outcome::Panic(m) => {
+                    let _ = writeln!(out, "{}\tPANIC\t{}\t{}", id, esc_line(&m), esc_line(&src));
+                }
+            }
+        }
+    }
+    let ovl = overlap_programs(args.tier == "thorough", args.seed);
+    let n_ovl = ovl.len();
+    for (id, src) in ovl {
+        n += 1;
+        match util::compile_text(&dir, &src) {
+            Outcome::Ok(c) => {
+                let _ = writeln!(out, "{}\tEXPECT\tnone\t", id);
+                let _ = writeln!(out, "{}\tSRC\t{}", id, esc_line(&src));
+                crate::c01::dump_src(&id, &dir.join("main.gom"), &src, &mut out);
+                let _ = writeln!(out, "{}\tSTAGE\tgo\t{}", id, crate::godump::gfile(&c.go).to_text());
+            }
+            Outcome::Err(stage, msgs) => {
+                let _ = writeln!(out, "{}\tREJECT\t{}\t{}\t{}", id, stage, esc_line(&msgs.join(" | ")), esc_line(&src));
+            }
+            Outcome::Panic(m) => {
+                let _ = writeln!(out, "{}\tPANIC\t{}\t{}", id, esc_line(&m), esc_line(&src));
+            }
+        }
+    }
     let _ = std::fs::remove_dir_all(&dir);
-    let _ = writeln!(out, "#FEATS\treceivers={} positions={} forms={} programs={}", recvs.len(), POSITIONS.len(), FORMS.len(), n);
+    let _ = writeln!(out, "#FEATS\treceivers={} positions={} forms={} overlap_scenarios={} overlap_programs={} programs={}", recvs.len(), POSITIONS.len(), FORMS.len(), OVERLAP_SCENARIOS.len(), n_ovl, n);
     std::fs::write(args.out.join("c17sem.cases.tsv"), out).expect("write");
     println!("c17sem programs={}", n);
 }
